@@ -128,7 +128,7 @@ Definition read_full (n : nat) : M bytes :=
   fun s => if short n (inp s) then (Err EEof, mkst [] (alloc s) (peak s))
            else (Ok (firstn n (inp s)), mkst (skipn n (inp s)) (alloc s) (peak s)).
 Definition read_fullN (n : N) : M bytes :=
-  fun s => if N.of_nat (length (inp s)) <? n then (Err EEof, mkst [] (alloc s) (peak s))
+  fun s => if shortN n (inp s) then (Err EEof, mkst [] (alloc s) (peak s))
            else read_full (N.to_nat n) s.
 
 (* make([]T, len, cap) / reflect.MakeSlice -> unsafe_NewArray: panics with
@@ -179,7 +179,7 @@ Definition decode_vector (D : M value) (esz : N) : M value :=
   dom _ <- make (N.min ln max_prealloc) esz;              (* reflect.MakeSlice(val.Type(), 0, min(ln, maxPrealloc)) *)
   match ln with
   | N0 => mret (VVec [])
-  | Npos p => dom acc <- iter_pos D p []; mret (VVec (rev acc))
+  | Npos p => dom acc <- iter_pos D p []; mret (VVec (frev acc))
   end.
 
 Definition record := list (string * value).
